@@ -1,4 +1,4 @@
-module spike12
+module spike13
 
 go 1.23
 
